@@ -101,6 +101,19 @@ class KeyFacts:
             for kind, owner in self.binding(k.id, at):
                 if kind in ("VIS", "VISN", "COLS", "PART", "UMAP", "SETVAR"):
                     out.append((kind, owner))
+            # a local holding a value of a map: `uid = M[name]`, `(uid := M.get(name))` (a None result is the caller's guard)
+            if not out and not self._is_param(k.id):
+                vals = list(self._assigned_values(k.id)) + [n.value for n in ast.walk(self.func) if isinstance(n, ast.NamedExpr) and n.target.id == k.id]
+                if len(vals) == 1:
+                    out += self.key_set(vals[0], at)
+        if isinstance(k, ast.Call) and isinstance(k.func, ast.Attribute) and k.func.attr == "get" and k.args:
+            mp = self.is_cache_map(k.func.value)
+            if mp is not None:
+                name, owner = mp
+                if name == "name_to_uuid":
+                    out.append(("VIS", owner))
+                elif name == "uuid_to_name":
+                    out.append(("VISN", owner))
         # M[k'] : a value of a map
         if isinstance(k, ast.Subscript):
             mp = self.is_cache_map(k.value)
